@@ -191,6 +191,10 @@ def run(chk):
         "ties": build({"a": ("input", []), "z": ("0", []), "w": ("1", []), "nz": ("not", ["z"]), "bw": ("buf", ["w"]), "g": ("and", ["a", "nz"]), "k": ("nor", ["z", "bw"]), "x2": ("xor", ["nz", "bw"])}, outputs=["g", "k"]),
         "plain": build({"a": ("input", []), "b": ("input", []), "c": ("input", []), "g": ("or", ["a", "b"]), "h": ("xnor", ["g", "c"]), "n": ("not", ["g"])}, outputs=["h", "n"]),
     }
+    from ..corpus import corpus
+
+    for k_, tags, cc in corpus("quick", exclude=("x", "names", "wide")):
+        pmodels[f"corpus::{k_}"] = cc
     for mname, cm in pmodels.items():
         for node in sorted(cm.nodes()):
             sp = sorted(cm.startpoints(node))
